@@ -37,7 +37,7 @@ def glencoe_model(g, n):
             k = min(budget[0], rng.randint(2, 4))
             kids = [spec.F(next(names)) for _ in range(k)]
             budget[0] -= k
-            kind = rng.choice(["alternative", "or", "mutex", "card", "nn"])
+            kind = rng.choice(["alternative", "or", "mutex", "card", "nn", "zero-to-n"])
             g.count("rel_kind", kind)
             if kind == "alternative":
                 a, b = 1, 1
@@ -45,6 +45,8 @@ def glencoe_model(g, n):
                 a, b = 1, k
             elif kind == "mutex":
                 a, b = 0, 1
+            elif kind == "zero-to-n":
+                a, b = 0, k          # [0..n] over n members: every product of {0,1} x {1,n} that is not a named kind
             elif kind == "nn":
                 a = b = rng.randint(2, k) if k >= 2 else 1
             else:
